@@ -102,7 +102,7 @@ def all_framers(house):
 
 
 def run_text(text, period=0.125, maxticks=64, watch=(), boom=None, build_only=False,
-             real=False, tick_hook=None, proxies=True, keep=None, behaviors=None, post=False):
+             real=False, tick_hook=None, proxies=True, keep=None, behaviors=None, post=False, stamp=0.0):
     """Build and run `text`.  Returns a Result with
        .built, .build_error, .trace (recorder events), .sends, .ticks (snapshots
        at each changeStamp call), .exc (exception leaving run()), .capped, .skedder"""
@@ -115,7 +115,7 @@ def run_text(text, period=0.125, maxticks=64, watch=(), boom=None, build_only=Fa
     path = os.path.join(d, "p.flo")
     with open(path, "w") as f:
         f.write(text)
-    sk = skedding.Skedder(name="vf", period=period, real=real, filepath=path,
+    sk = skedding.Skedder(name="vf", period=period, stamp=stamp, real=real, filepath=path,
                           behaviors=list(behaviors or ["vf.flo.recorder"]))
     res.skedder = sk
     res.build_msgs = []
